@@ -8,6 +8,7 @@ use serde_json::{json, Value};
 use stam::*;
 
 const ANNO_NS: &str = "http://www.w3.org/ns/anno/";
+const ANNO_CTX: &str = "http://www.w3.org/ns/anno.jsonld";
 
 const IDS: &[&str] = &["r0", "my res", "http://ex.org/res1", "urn:x:1", "r\"q", "r\\b", "\u{e9}\u{1F600}", "ctl\u{1}x", "tab\tx", "nl\nx", "a/b#c", "cr\rx", "file:///tmp/x y"];
 const KEYS: &[&str] = &["k", "key with space", "k\"q", "k\\b", "http://purl.org/dc/terms/title", "\u{e9}", "tab\tk", "ctl\u{2}"];
@@ -129,7 +130,7 @@ pub fn build(seed: u64) -> Built {
         if rids.contains(&id) { continue; }
         if store.add_resource(TextResourceBuilder::new().with_id(id.clone()).with_text("hello wonderful world, this is text")).is_ok() { rids.push(id); }
     }
-    let sets: Vec<String> = vec!["s0".to_string(), rng.pick(IDS).to_string(), ANNO_NS.to_string()];
+    let sets: Vec<String> = vec!["s0".to_string(), rng.pick(IDS).to_string(), ANNO_NS.to_string(), if rng.chance(30) { ANNO_CTX.to_string() } else { ANNO_NS.to_string() }];
     let values = value_menu();
     let mut ann_ids: Vec<String> = vec![];
     let nann = 6 + rng.below(8);
@@ -161,7 +162,7 @@ pub fn build(seed: u64) -> Built {
         let mut d = vec![];
         for _ in 0..nd {
             let set = rng.pick(&sets).clone();
-            let key = if set == ANNO_NS { rng.pick(ANNO_KEYS).to_string() } else { rng.pick(KEYS).to_string() };
+            let key = if set == ANNO_NS || set == ANNO_CTX { rng.pick(ANNO_KEYS).to_string() } else { rng.pick(KEYS).to_string() };
             // one value per predicate (an IRI key names the same predicate in every set)
             if used.iter().any(|(_, k)| *k == key) { continue; }
             used.push((set.clone(), key.clone()));
@@ -204,6 +205,13 @@ pub fn check_store(rep: &mut Report, seed: u64) {
             rep.count(&format!("target:{}", target_kind));
             let out = guarded(std::panic::AssertUnwindSafe(|| a.to_webannotation(&cfg)));
             let out = match out { Ok(s) => s, Err(m) => { rep.fail("panic", &format!("C17/export-panics/{}", last_panic_loc()), ctx(), "a JSON document", &m); continue; } };
+            // ----- the assembly of the document vs. the Lean model (token streams)
+            if let Some(line) = wd_line(store, &a, &cfg) {
+                let explicit = |k: &str| a.data().any(|d| matches!(d.set().id(), Some(ANNO_NS) | Some(ANNO_CTX)) && d.key().id() == Some(k));
+                let toks = lex_json(&out).map(|t| canon_tokens(t, cfg.auto_generated && !explicit("generated"), a.id().is_none() && cfg.generate_annotation_iri, !explicit("id"))).unwrap_or_else(|| "unlexable".to_string());
+                rep.count("doc:model-lines");
+                rep.model_case_ctx(ctx(), vec![line], vec![toks], "webanno-doc");
+            }
             if out.is_empty() { rep.count("export:not-accepted"); continue; }
             let nontrivial = a.data().count() > 0;
             let ckey = format!("{}|{}|{}", seed, cname, ai);
@@ -213,7 +221,7 @@ pub fn check_store(rep: &mut Report, seed: u64) {
                 Ok(_) => { rep.fail("oracle", "C17/not-an-object", ctx(), "a JSON object", &out.chars().take(200).collect::<String>()); continue; }
                 Err(e) => {
                     // classify by what the annotation carries
-                    let mut cls: Vec<String> = a.data().map(|d| { let k = d.key().id().unwrap_or("?"); if d.set().id() == Some(ANNO_NS) && matches!(k, "motivation" | "creator" | "created" | "generated" | "generator") { format!("anno-property") } else if id_class(k) != "plain" && id_class(k) != "iri" && id_class(k) != "space" && id_class(k) != "unicode" { format!("key-{}", id_class(k)) } else { format!("value-{}", value_class(d.value())) } }).collect();
+                    let mut cls: Vec<String> = a.data().map(|d| { let k = d.key().id().unwrap_or("?"); if matches!(d.set().id(), Some(ANNO_NS) | Some(ANNO_CTX)) && matches!(k, "motivation" | "creator" | "created" | "generated" | "generator") { format!("anno-property") } else if id_class(k) != "plain" && id_class(k) != "iri" && id_class(k) != "space" && id_class(k) != "unicode" { format!("key-{}", id_class(k)) } else { format!("value-{}", value_class(d.value())) } }).collect();
                     if let Some(id) = a.id() { if matches!(id_class(id), "backslash" | "control") { cls.push(format!("id-{}", id_class(id))); } }
                     let mut leaves = vec![]; expected_leaves(store, a.as_ref().target(), &cfg, &mut leaves);
                     for l in &leaves { match l { Leaf::Text(s, ..) | Leaf::Res(s) | Leaf::Set(s) | Leaf::Ann(Some(s)) => if s.contains('\\') || s.chars().any(|c| (c as u32) < 0x20) { cls.push("target-id-needs-escape".into()) }, Leaf::Skipped => cls.push("skipped-selector".into()), _ => {} } }
@@ -256,7 +264,7 @@ pub fn check_store(rep: &mut Report, seed: u64) {
             for d in a.data() {
                 let key = d.key();
                 let kid = key.id().unwrap_or("?");
-                let in_anno = d.set().id() == Some(ANNO_NS);
+                let in_anno = matches!(d.set().id(), Some(ANNO_NS) | Some(ANNO_CTX));
                 let top = in_anno && matches!(kid, "generated" | "generator" | "motivation" | "created" | "creator");
                 let pred_full = if in_anno { kid.to_string() } else { into_iri(kid, &into_iri(d.set().id().unwrap_or("?"), &cfg.default_set_iri)) };
                 let pred = cfg.uri_to_namespace(&pred_full).to_string();
@@ -276,6 +284,120 @@ pub fn check_store(rep: &mut Report, seed: u64) {
             }
         }
     }
+}
+
+// ---------------------------------------------------------------------------------------------
+// document assembly vs. the Lean model (StamModel/WebAnnoDoc.lean): `wd` lines
+// ---------------------------------------------------------------------------------------------
+
+fn wd_sel(store: &AnnotationStore, sel: &Selector, cfg: &WebAnnoConfig, out: &mut Vec<String>) {
+    match sel {
+        Selector::TextSelector(r, t, _) | Selector::AnnotationSelector(_, Some((r, t, _))) => {
+            let res = store.resource(*r).unwrap();
+            let ts: &TextSelection = res.as_ref().get(*t).unwrap();
+            let iri = into_iri(res.id().unwrap_or("?"), &cfg.default_resource_iri);
+            let tmpl = cfg.extra_target_template.as_ref().map(|t| t.replace("{resource}", &iri).replace("{begin}", &ts.begin().to_string()).replace("{end}", &ts.end().to_string())).unwrap_or_default();
+            out.extend(["t".to_string(), hex(&iri), ts.begin().to_string(), ts.end().to_string(), hex(&tmpl)]);
+        }
+        Selector::AnnotationSelector(a, None) => { out.push("a".into()); out.push(store.annotation(*a).unwrap().id().map(|i| hex(&into_iri(i, &cfg.default_annotation_iri))).unwrap_or("~".into())); }
+        Selector::ResourceSelector(r) => { out.push("r".into()); out.push(hex(&into_iri(store.resource(*r).unwrap().id().unwrap_or("?"), &cfg.default_resource_iri))); }
+        Selector::DataSetSelector(s) => { out.push("s".into()); out.push(hex(&into_iri(store.dataset(*s).unwrap().id().unwrap_or("?"), &cfg.default_resource_iri))); }
+        Selector::DataKeySelector(..) | Selector::AnnotationDataSelector(..) => out.push("k".into()),
+        Selector::CompositeSelector(v) | Selector::MultiSelector(v) | Selector::DirectionalSelector(v) => {
+            out.push(match sel { Selector::CompositeSelector(_) => "c0", Selector::MultiSelector(_) => "c1", _ => "c2" }.into());
+            out.push(v.len().to_string());
+            for s in v { wd_sel(store, s, cfg, out); }
+        }
+        Selector::RangedTextSelector { .. } | Selector::RangedAnnotationSelector { .. } => {
+            let subs: Vec<_> = sel.iter(store, false).collect();
+            out.push("g".into());
+            out.push(subs.len().to_string());
+            for s in &subs { wd_sel(store, s, cfg, out); }
+        }
+    }
+}
+
+/// the input of the model: configuration, the annotation's IRI, the data items (dataset class, key, the IRI of the
+/// key, value) and the target, with every IRI computed by the harness's own `into_iri`
+fn wd_line(store: &AnnotationStore, a: &ResultItem<Annotation>, cfg: &WebAnnoConfig) -> Option<String> {
+    let mut t: Vec<String> = vec!["wd".into()];
+    t.push(format!("{}{}{}{}", cfg.extra_target_template.is_some() as u8, cfg.generate_annotation_iri as u8, cfg.auto_generated as u8, cfg.auto_generator as u8));
+    t.push(a.id().map(|i| hex(&into_iri(i, &cfg.default_annotation_iri))).unwrap_or("~".into()));
+    t.push(format!("E{}", cfg.extra_context.len()));
+    for e in &cfg.extra_context { t.push(hex(e)); }
+    t.push(format!("N{}", cfg.context_namespaces.len()));
+    for (uri, ns) in &cfg.context_namespaces { t.push(hex(uri)); t.push(hex(ns)); }
+    let data: Vec<_> = a.data().collect();
+    t.push(format!("D{}", data.len()));
+    for d in &data {
+        let set = d.set();
+        let setid = set.id()?;
+        let kid = d.key().id()?.to_string();
+        let in_anno = setid == ANNO_NS || setid == ANNO_CTX;
+        let kiri = into_iri(&kid, &into_iri(setid, &cfg.default_set_iri));
+        let mut spec = vec![];
+        if !spec_of(d.value(), &mut spec) { return None; }
+        t.extend([(in_anno as u8).to_string(), hex(&kid), hex(&kiri), spec.join(",")]);
+    }
+    wd_sel(store, a.as_ref().target(), cfg, &mut t);
+    Some(t.join(" "))
+}
+
+/// the tokens of a JSON text: structural characters, `S<hex of the decoded string>`, `R<hex of the bare literal>`
+fn lex_json(s: &str) -> Option<Vec<String>> {
+    let cs: Vec<char> = s.chars().collect();
+    let mut out = vec![];
+    let mut i = 0;
+    while i < cs.len() {
+        let c = cs[i];
+        if c == ' ' || c == '\t' || c == '\n' || c == '\r' { i += 1; continue; }
+        if "{}[],:".contains(c) { out.push(c.to_string()); i += 1; continue; }
+        if c == '"' {
+            let mut j = i + 1;
+            loop {
+                if j >= cs.len() { return None; }
+                if cs[j] == '\\' { j += 2; continue; }
+                if cs[j] == '"' { break; }
+                j += 1;
+            }
+            let lit: String = cs[i..=j].iter().collect();
+            let dec: String = serde_json::from_str(&lit).ok()?;
+            out.push(format!("S{}", hex(&dec)));
+            i = j + 1;
+            continue;
+        }
+        let mut j = i;
+        while j < cs.len() && !"{}[],: \t\n\r\"".contains(cs[j]) { j += 1; }
+        out.push(format!("R{}", hex(&cs[i..j].iter().collect::<String>())));
+        i = j;
+    }
+    Some(out)
+}
+
+/// replace what the exporter takes from its environment by the model's markers: the time of the automatic
+/// `generated` and freshly generated identifiers (of the annotation, of its body)
+fn canon_tokens(mut t: Vec<String>, auto_generated: bool, fresh_ids: bool, body_id_fresh: bool) -> String {
+    if t.is_empty() { return "-".into(); }
+    let key = |k: &str| format!("S{}", hex(k));
+    let (mut depth, mut top): (i32, String) = (0, String::new());
+    let mut i = 0;
+    while i < t.len() {
+        match t[i].as_str() {
+            "{" | "[" => depth += 1,
+            "}" | "]" => depth -= 1,
+            _ => {
+                let is_key = t[i].starts_with('S') && t.get(i + 1).map(|x| x == ":").unwrap_or(false);
+                if is_key && depth == 1 { top = t[i].clone(); }
+                if is_key && i + 2 < t.len() && t[i + 2].starts_with('S') {
+                    if depth == 1 && t[i] == key("generated") && auto_generated { t[i + 2] = key("<now>"); }
+                    if depth == 1 && t[i] == key("id") && fresh_ids { t[i + 2] = key("<nanoid>"); }
+                    if depth == 2 && top == key("body") && t[i] == key("id") && fresh_ids && body_id_fresh { t[i + 2] = key("<nanoid>"); }
+                }
+            }
+        }
+        i += 1;
+    }
+    t.join(" ")
 }
 
 pub fn replay(lines: &[String]) {
